@@ -490,8 +490,11 @@ class Check:
         ev = {"property_id": self.prop, "tier": self.tier, "seed": self.seed, "level": "proof",
               "coverage": cov, "assumptions": self.assumptions, "wall_s": round(wall, 2),
               "violations": len(self.violations) + (1 if (self.broken and not self.violations) else 0)}
-        os.makedirs(os.path.join(VERIF, "evidence"), exist_ok=True)
-        with open(os.path.join(VERIF, "evidence", f"{self.prop}.json"), "w") as f:
+        # runs against a scratch tree (seeded changes, mutation trials) must not overwrite the
+        # evidence of the real tree: they set VERIF_EVIDENCE_DIR
+        evdir = os.environ.get("VERIF_EVIDENCE_DIR") or os.path.join(VERIF, "evidence")
+        os.makedirs(evdir, exist_ok=True)
+        with open(os.path.join(evdir, f"{self.prop}.json"), "w") as f:
             json.dump(ev, f, indent=1, default=str)
         with open(os.path.join(BUILD, f"{self.prop}.{self.tier}.log"), "w") as f:
             f.write("\n".join(self.log))
